@@ -1,11 +1,14 @@
 /-
   Proofs/C05.lean — order lifecycle: one terminal transition, idempotent execute/cancel, the active
   registry, every executed order in exactly one trade.  Statements over the accounts model
-  (Jesse/Accounts.lean, tied to the real classes by correspondence).  PROPERTY THEOREMS ONLY.
+  (Jesse/Accounts.lean, tied to the real classes by correspondence) and, at the end, over whole runs of the engine
+  model (Jesse/Engine.lean) for every strategy.  PROPERTY THEOREMS ONLY.
 -/
 import Jesse.Accounts
 import Proofs.C04
 import Proofs.C03
+import Proofs.C02
+import Proofs.Lemmas.FrameRun
 
 namespace C05
 open Jesse Jesse.Acc
@@ -176,5 +179,116 @@ theorem executed_recorded_once (w : World) (o : Order) (hs : o.sym < w.temp.leng
   simp only []
   rw [C03.getD_upd_same _ _ _ hs]
   split <;> rfl
+
+/-! ### engine level: whole backtest runs, every strategy
+
+The frame relation `FrameLemmas.EExt e e'` (Proofs/Lemmas/Frame.lean) says of every order that exists in `e`:
+its symbol and price are the same in `e'`, a final status is unchanged in `e'`, a non-active order is not active
+in `e'`, and it is in a registry of `e'` only if it was in that registry in `e`.  Proofs/Lemmas/FrameRun.lean
+proves it for every function of the engine model: one strategy step, one matched minute, one fast-mode chunk,
+the liquidation check, the end of the session and both simulators, FOR EVERY `UserStrategy` (arbitrary hooks),
+every candle input, every fuel, from every engine state.  -/
+
+section engine
+open Jesse.Eng FrameLemmas
+
+variable {M : Type} [Inhabited M] (u : UserStrategy M)
+
+/-- what `EExt` says about one order, in the vocabulary of the property -/
+theorem lifecycle_of_ext {e e' : Engine M} (h : EExt e e') (id : Nat) (hid : id < e.w.orders.length) :
+    Step (orderOf e id).status (orderOf e' id).status ∧
+    ((orderOf e id).status ≠ .active → (orderOf e' id).status = (orderOf e id).status) ∧
+    (orderOf e' id).price = (orderOf e id).price ∧ (orderOf e' id).sym = (orderOf e id).sym ∧
+    (∀ sym, id ∈ Acc.getD e'.w.active sym → id ∈ Acc.getD e.w.active sym) := by
+  refine ⟨?_, h.final id hid, (h.same id hid).1, (h.same id hid).2, fun sym hm => h.registry sym id hid hm⟩
+  by_cases ha : (orderOf e id).status = .active
+  · by_cases hb : (orderOf e' id).status = .active
+    · exact Or.inl (ha.trans hb.symm)
+    · exact Or.inr ⟨ha, hb⟩
+  · exact Or.inl (h.final id hid ha).symm
+
+/-- ONE TERMINAL TRANSITION OVER A WHOLE RUN of the normal simulator: every order that exists at any point `e`
+    moves along active → final at most once until the end of the run, a final status never changes, symbol and
+    price never change, and a final order never returns to a registry -/
+theorem run_lifecycle_step (fuel : Nat) (inputs : List (List Candle)) (e : Engine M) (id : Nat) (hid : id < e.w.orders.length) :
+    Step (orderOf e id).status (orderOf (runStep u fuel inputs e) id).status ∧
+    ((orderOf e id).status ≠ .active → (orderOf (runStep u fuel inputs e) id).status = (orderOf e id).status) ∧
+    (orderOf (runStep u fuel inputs e) id).price = (orderOf e id).price ∧
+    (orderOf (runStep u fuel inputs e) id).sym = (orderOf e id).sym ∧
+    (∀ sym, id ∈ Acc.getD (runStep u fuel inputs e).w.active sym → id ∈ Acc.getD e.w.active sym) :=
+  lifecycle_of_ext (runStep_ext u fuel inputs e) id hid
+
+/-- the same over a whole run of the fast simulator -/
+theorem run_lifecycle_skip (fuel : Nat) (inputs : List (List Candle)) (e : Engine M) (id : Nat) (hid : id < e.w.orders.length) :
+    Step (orderOf e id).status (orderOf (runSkip u fuel inputs e) id).status ∧
+    ((orderOf e id).status ≠ .active → (orderOf (runSkip u fuel inputs e) id).status = (orderOf e id).status) ∧
+    (orderOf (runSkip u fuel inputs e) id).price = (orderOf e id).price ∧
+    (orderOf (runSkip u fuel inputs e) id).sym = (orderOf e id).sym ∧
+    (∀ sym, id ∈ Acc.getD (runSkip u fuel inputs e).w.active sym → id ∈ Acc.getD e.w.active sym) :=
+  lifecycle_of_ext (runSkip_ext u fuel inputs e) id hid
+
+theorem runStepN_succ (fuel : Nat) (inputs : List (List Candle)) (e : Engine M) (n : Nat) :
+    runStepN u fuel inputs e (n + 1) = stepAt u fuel (runStepN u fuel inputs e n).2 (runStepN u fuel inputs e n).1 n := by
+  unfold runStepN
+  simp only [List.range_succ, List.foldl_append, List.foldl_cons, List.foldl_nil]
+
+theorem runSkipN_succ (fuel : Nat) (inputs : List (List Candle)) (e : Engine M) (step k : Nat) :
+    runSkipN u fuel inputs e step (k + 1) =
+      skipAt u fuel (runSkipN u fuel inputs e step k).2 (runSkipN u fuel inputs e step k).1 (k * step)
+        (min step ((inputs.getD 0 []).length - k * step)) := by
+  unfold runSkipN
+  simp only [List.range_succ, List.foldl_append, List.foldl_cons, List.foldl_nil]
+
+/-- BETWEEN ANY TWO MINUTES of a run of the normal simulator (`n ≤ m` iterations done): the state after `m`
+    iterations extends the state after `n` -/
+theorem run_prefix_ext_step (fuel : Nat) (inputs : List (List Candle)) (e : Engine M) (n k : Nat) :
+    EExt (runStepN u fuel inputs e n).1 (runStepN u fuel inputs e (n + k)).1 := by
+  induction k with
+  | zero => exact EExt.refl _
+  | succ k ih =>
+    rw [← Nat.add_assoc, runStepN_succ]
+    exact EExt.trans ih (stepAt_ext u fuel _ _ _)
+
+theorem run_prefix_ext_skip (fuel : Nat) (inputs : List (List Candle)) (e : Engine M) (step n k : Nat) :
+    EExt (runSkipN u fuel inputs e step n).1 (runSkipN u fuel inputs e step (n + k)).1 := by
+  induction k with
+  | zero => exact EExt.refl _
+  | succ k ih =>
+    rw [← Nat.add_assoc, runSkipN_succ]
+    exact EExt.trans ih (skipAt_ext u fuel _ _ _ _)
+
+/-- NEVER CHANGES AFTERWARDS, at every minute of the run: an order that is final after `n` iterations of the
+    normal simulator has the same status after any later iteration (and so an order takes at most one
+    terminal transition along the whole sequence of minute states) -/
+theorem final_stays_final_step (fuel : Nat) (inputs : List (List Candle)) (e : Engine M) (n k id : Nat)
+    (hid : id < (runStepN u fuel inputs e n).1.w.orders.length)
+    (hf : (orderOf (runStepN u fuel inputs e n).1 id).status ≠ .active) :
+    (orderOf (runStepN u fuel inputs e (n + k)).1 id).status = (orderOf (runStepN u fuel inputs e n).1 id).status :=
+  (run_prefix_ext_step u fuel inputs e n k).final id hid hf
+
+theorem final_stays_final_skip (fuel : Nat) (inputs : List (List Candle)) (e : Engine M) (step n k id : Nat)
+    (hid : id < (runSkipN u fuel inputs e step n).1.w.orders.length)
+    (hf : (orderOf (runSkipN u fuel inputs e step n).1 id).status ≠ .active) :
+    (orderOf (runSkipN u fuel inputs e step (n + k)).1 id).status = (orderOf (runSkipN u fuel inputs e step n).1 id).status :=
+  (run_prefix_ext_skip u fuel inputs e step n k).final id hid hf
+
+/-- the same for one strategy step (before → check → after with arbitrary hooks) and one matched minute -/
+theorem strategy_step_lifecycle (fuel : Nat) (e : Engine M) (r id : Nat) (hid : id < e.w.orders.length) :
+    Step (orderOf e id).status (orderOf (executeStrategy u fuel e r) id).status :=
+  (lifecycle_of_ext (executeStrategy_ext u fuel e r) id hid).1
+
+theorem minute_lifecycle (fuel : Nat) (e : Engine M) (sym : Nat) (c : Candle) (id : Nat) (hid : id < e.w.orders.length) :
+    Step (orderOf e id).status (orderOf (simulateMinute u fuel e sym c) id).status :=
+  (lifecycle_of_ext (simulateMinute_ext u fuel e sym c) id hid).1
+
+/-- not vacuous: in the demo session of C02 (a LIMIT buy at 97 and a STOP buy at 103 resting, the candle
+    95..105) both orders exist before the run, are active, and are executed by the run, which ends without error
+    (the third order is the closing market order of the end of the session) -/
+example : C02.demoEngine.w.orders.map (·.status) = [.active, .active] := by decide +kernel
+example : (runStep C02.idle 50 [[C02.demoCandle]] C02.demoEngine).err = none := by decide +kernel
+example : (runStep C02.idle 50 [[C02.demoCandle]] C02.demoEngine).w.orders.map (·.status) = [.executed, .executed, .executed] := by
+  decide +kernel
+
+end engine
 
 end C05
